@@ -614,6 +614,24 @@ fn explore_both(report: &mut Report, thorough: bool, seed: u64, which: &'static 
             },
         ));
     }
+    // D-many: families with 9, 10, 11 and 13 shapes under one path (the suffix is a number, not a digit)
+    {
+        let prims = Prim::ALL;
+        let mut many: Vec<Case> = vec![];
+        for k in [9usize, 10, 11, 13] {
+            let mut defs: Vec<Def> = (0..k).map(|i| Def::strukt(&["m", "f"], "Foo", &[], named(vec![("x", Ty::Prim(prims[i % prims.len()]))]))).collect();
+            let fields: Vec<(String, Field)> = (0..k).map(|i| (format!("m{i}"), Field::new(Ty::Named(i, vec![])))).collect();
+            defs.push(Def::strukt(&["m", "h"], "Host", &[], Fields::Named(fields)));
+            many.push(Case::new(RegSrc::Prog(Program { defs, roots: vec![Ty::Named(k, vec![])] }), sp.clone(), format!("D-many({k} shapes)")));
+        }
+        report.add(sweep(
+            "D-many(one path with 9, 10, 11 and 13 differently shaped types)",
+            &many,
+            Duration::from_secs(60),
+            |c| c.reg.describe(),
+            |c, ctx| check(c, "plain-family", ctx),
+        ));
+    }
     // D-generic without the coincidence filter: coincident instantiation sets and Config-trait
     // variants with different associated types are same-path families too
     let d = DGeneric {
